@@ -695,8 +695,9 @@ ra_writeable(RegisterTable *t, RegisterAddress addr, RegisterOffset n)
             break;
         }
         if (register_area_is_writeable(&t->area[i]) == false) {
+            /* First address of the request that is not writeable. */
             rv.code = REG_ACCESS_READONLY;
-            rv.address = addr;
+            rv.address = (t->area[i].base > addr) ? t->area[i].base : addr;
             return rv;
         }
     }
